@@ -18,6 +18,7 @@ FINDING_DEV = {
     "KF-C13-07": "Xls!HeaderKeyCollision",
     "KF-C13-08": "Xls!ErrorCellNone",
     "KF-C13-09": "Ods!LargeGapCollapsed",
+    "KF-C13-10": "Epub!ColspanShifts",
 }
 
 TABLE_FORMATS = {"docx", "odt", "html", "mhtml", "epub", "rtf", "pptx", "odp", "xlsx", "ods", "xls"}
